@@ -83,8 +83,18 @@ def cross_process(h: Harness):
         results = list(ex.map(lambda e: run_worker(configs, e), envs + [envs[0]]))
     base = results[0]
     same_env_again = results[-1]
-    for key in base:
+    for key in list(base):
+        if "#" in key:
+            continue
         ref = base[key]
+        # one after the other in the same process (second and third run use a user-supplied tracker)
+        for again in ("#again", "#again2"):
+            other = base.get(key + again)
+            if other is not None and other != ref:
+                h.fail(key.split("/")[1], "irreproducible-within-process",
+                       f"search {key} run again in the same process (tracker supplied by the user) evaluated {len(other.get('evaluated', []))} programs "
+                       f"instead of {len(ref.get('evaluated', []))} or returned a different best: {str(other)[-100:]} vs {str(ref)[-100:]}", [key, again])
+                break
         nontrivial = len(set(ref.get("evaluated", []))) >= 2
         h.seen("xproc:" + key, nontrivial)
         h.count("cross-process-configs")
